@@ -224,6 +224,11 @@ func (s *Session) probeRoot(names []string) ([]fs.DirEntry, error) {
 	var des []fs.DirEntry
 
 	cand := append([]string{WorkDir}, names...)
+	// a plan may reuse the (random) name of a temporary object directly below the root
+	for real := range s.Tmp {
+		cand = append(cand, real)
+	}
+
 	sort.Strings(cand)
 
 	for i, n := range cand {
